@@ -192,7 +192,7 @@ theorem gfixedLoop_mk (len max guard : Nat) (hlen : 0 < len)
         exact (hT p st hpg hm).first1_eq heq
     · exact hm
 
-theorem gfixedLoop_pos (len max guard : Nat) :
+theorem gfixedLoop_posT (len max guard : Nat) :
     ∀ fuel p m st, (gfixedLoop child len max guard fuel p m st).1 ≤ p ∨
       (gfixedLoop child len max guard fuel p m st).1 ≤ guard + len := by
   intro fuel
@@ -250,7 +250,7 @@ theorem gfixedGen_term (ctx : Ctx) (min max len : Nat) (hlen : 0 < len)
   · exact .nil _ hm
   · have hmk := gfixedLoop_mk (b := b) (child := child) len max guard hlen
       (fun p st hp h => hT p st (by omega) h) (ctx.len + 2) position 0 st hm (by omega) (by omega)
-    have hpos := gfixedLoop_pos (child := child) len max guard (ctx.len + 2) position 0 st
+    have hpos := gfixedLoop_posT (child := child) len max guard (ctx.len + 2) position 0 st
     generalize gfixedLoop child len max guard (ctx.len + 2) position 0 st = r at hmk hpos
     split
     · exact .nil _ hmk
@@ -612,7 +612,7 @@ def matchAtPrep (ctx : Ctx) (i : Nat) (st : St) : St :=
     { st with startBr := List.replicate ctx.maxParens none, endBr := List.replicate ctx.maxParens none }
   else st
 
-theorem matchAt_eq (ctx : Ctx) (op : Op) (i : Nat) (st : St) :
+theorem matchAt_eqT (ctx : Ctx) (op : Op) (i : Nat) (st : St) :
     matchAt ctx op i st =
       match sem ctx op i (matchAtPrep ctx i st) with
       | .cons n st' _ => (true, { st' with cap := st'.cap.setEnd 0 n })
@@ -630,7 +630,7 @@ theorem matchAtPrep_mk {b : Bool} (ctx : Ctx) (i : Nat) (st : St) (hm : MarkOk b
 theorem matchAt_mk (ctx : Ctx) (op : Op) (j : Nat)
     (hT : ∀ st, MarkOk true st → (sem ctx op j st).Term (MarkOk true)) (st : St) (hm : MarkOk true st) :
     MarkOk true (matchAt ctx op j st).2 := by
-  rw [matchAt_eq]
+  rw [matchAt_eqT]
   have h := hT _ (matchAtPrep_mk ctx j st hm)
   generalize matchAtPrep ctx j st = st0 at h
   split
